@@ -156,7 +156,10 @@ func (t *IDTokenClaims) GetAccessTokenHash() string {
 }
 
 func (t *IDTokenClaims) SetUserInfo(i *UserInfo) {
-	t.Subject = i.Subject
+	if i.Subject != "" {
+		// userinfo without a subject (e.g. the openid scope was not requested) must not blank the token's subject
+		t.Subject = i.Subject
+	}
 	t.UserInfoProfile = i.UserInfoProfile
 	t.UserInfoEmail = i.UserInfoEmail
 	t.UserInfoPhone = i.UserInfoPhone
